@@ -887,6 +887,11 @@ class Gen:
                 if a in txt:
                     txt = txt.replace(a, b)
                     self.notes.append("in type %s: `%s` rewritten to `%s`" % (t["name"], a, b))
+            # reject=Scope:K,V;SymbolTable:K,V  -> verifier attributes generic stand-in containers need
+            for ent in (kv.get("reject") or "").split(";"):
+                if ent and ent.split(":")[0] == t["name"]:
+                    attrs = "".join("#[verifier::reject_recursive_types(%s)]\n" % g for g in ent.split(":")[1].split(","))
+                    txt = re.sub(r"^pub (struct|enum)", attrs + r"pub \1", txt, count=1, flags=re.M)
             rng = self.emit("// ---- type %s from %s:%d" % (t["name"], rel, s.line_of(t["start"])))
             self.emit(txt)
             for dd in dropped:
